@@ -186,17 +186,60 @@ func c15Run(c *fw.Ctx, cs c15Case, checkAlways bool) {
 		if len(cur.Fields) >= 2 {
 			queries = append(queries, []string{cur.Fields[len(cur.Fields)-1], cur.Fields[0]})
 		}
+		type variant struct {
+			suffix string
+			keep   func(period int64) bool
+		}
+		// time-bounded variants: the bound sits on a period boundary, so the expectation is exact (a period is
+		// returned iff it lies wholly inside the range)
+		variants := []variant{
+			{"", func(int64) bool { return true }},
+			{" ASOF '2019-12-31T23:59:00Z' UNTIL '2020-01-01T00:00:01Z'", func(p int64) bool { return p <= sec }},
+			{" ASOF '2020-01-01T00:00:01Z'", func(p int64) bool { return p > sec }},
+		}
+		type q15 struct {
+			fields []string
+			v      variant
+			star   bool
+		}
+		var all []q15
 		for qi, fields := range queries {
+			for vi, v := range variants {
+				if qi == 0 && vi > 0 {
+					continue
+				}
+				all = append(all, q15{fields, v, qi == 0})
+			}
+		}
+		if len(cur.Fields) >= 2 {
+			// the whole field list, named, under both bounds (each stored column may cover different periods)
+			for _, v := range variants[1:] {
+				all = append(all, q15{cur.Fields, v, false})
+			}
+		}
+		for qi, q := range all {
+			fields := q.fields
 			sql := "SELECT * FROM t15"
-			if qi > 0 {
-				sql = "SELECT " + strings.Join(fields, ", ") + " FROM t15"
+			if !q.star {
+				sql = "SELECT " + strings.Join(fields, ", ") + " FROM t15" + q.v.suffix
 			}
 			res, err := db.Query(sql, true)
+			exp := expectedRows(fields)
+			for k := range exp {
+				var period int64
+				fmt.Sscanf(k, "%d|", &period)
+				if !q.v.keep(period) {
+					delete(exp, k)
+				}
+			}
+			if err != nil && q.v.suffix != "" && len(exp) == 0 {
+				c.Count("bounded_queries_refused_on_empty_range", 1)
+				continue
+			}
 			if err != nil {
 				c.Violate("C15", "query-error", fmt.Sprintf("%s: %s: %v", describe(step), sql, err), cs)
 				return false
 			}
-			exp := expectedRows(fields)
 			got := map[string][]float64{}
 			for _, r := range res.Rows {
 				got[fmt.Sprintf("%d|%s", r.TS, rm.KeyString(r.Key))] = r.Vals
